@@ -214,6 +214,8 @@ REWRITE = {
              "And over the session model of C04 (c05_check_passes_after_every_history): after every history of sessions that completes, the model's integrity check returns true. Tie: real check() on every tamper kind")],
     "C09": [("PARTIAL: that the real workers are independent",
              "In the session model (c09_multi_writer_result_is_exact_and_checked) a multi-writer call - any number of writers, uneven loads, several splits, empty writers - after any history leaves exact metadata and a passing integrity check, and (c09_each_writers_examples_in_its_own_order) every writer's shards appear contiguously, in its close order and with exactly its examples, in the depth-first shard list. PARTIAL: that the real workers are independent")],
+    "C10": [("all but the last shard of a split are full when metadata_changed never fired.",
+             "all but the last shard of a split are full when metadata_changed never fired; and write by write (c10_short_shard_only_at_metadata_change): whenever a write closes a shard, that shard is full or the value passed and the shard's metadata are two different non-empty values.")],
     "C15": [("PARTIAL: early-drop liveness, the decoders/pyo3 layer and the epoch loop are validated on the implementation only:",
              "Termination (every pass takes at most 3n+min(T,n)+1 thread steps under every schedule) and early-drop liveness (after a drop in any state whatsoever every worker thread ends, so join returns) are theorems as well. "
              "PARTIAL: the decoders/pyo3 layer and the epoch loop are validated on the implementation only:")],
